@@ -109,12 +109,19 @@ def main():
             if only and prop not in only and name not in only:
                 return None
             return name, prop, check(d, prop, tier)
+        results = {}
         with ThreadPoolExecutor(max_workers=3) as ex:
             for r in ex.map(one, items):
                 if r:
                     name, prop, res = r
+                    results[name] = {"property": prop, "check_rc": res.get("rc"), "caught": res.get("rc") == 1,
+                                     "first_lines": res.get("lines", [])[:2], "why": res.get("why", ""), "tail": res.get("tail", "")}
                     print("%-14s %s rc=%s %s | %s" % (name, prop, res.get("rc"), "; ".join(l[:90] for l in res.get("lines", [])[:2]), res.get("why", "")[:160]))
                     sys.stdout.flush()
+        out = os.environ.get("SEED_RESULTS")
+        if out:
+            with open(out, "w") as fh:
+                json.dump(results, fh, indent=1, sort_keys=True)
 
 
 if __name__ == "__main__":
